@@ -1541,6 +1541,10 @@ PROGS4 = [
 'def use():\n    return longer_name(2)\n\n\ndef f(n):\n    return n + 1\n\n\ndef longer_name(n):\n    return n + 1\n\n\nprint(f(3), longer_name(4), use())\n',
 'def first(xs):\n    return [x for x in xs if x]\n\n\ndef a_much_longer_second_name(ys):\n    return [y for y in ys if y]\n\n\ndef k(v):\n    return a_much_longer_second_name(v) + first(v) + a_much_longer_second_name(v)\n\n\nprint(k([0, 1]))\n',
 'def build():\n    a = [100, 200, 300, 400, 500, 600]\n    b = [100, 200, 300, 400, 500, 600]\n    c = [100, 200, 300, 400, 500, 600]\n    d = [100, 200, 300, 400, 500, 600]\n    e = [100, 200, 300, 400, 500, 600]\n    a.append(1)\n    return a, b, c, d, e\n\n\nprint(build())\n',
+'def format(x):\n    print("fmt", x)\n\n\nformat(1)\nprint("done")\n',
+'def len(x):\n    print("len called")\n    return 0\n\n\nlen([1])\nprint("done")\n',
+'registry = []\n\n\ndef id(x):\n    registry.append(x)\n    return x\n\n\nid("a")\nid("b")\nprint(registry)\n',
+'import collections.abc, collections.abc\n\nprint(collections.abc is not None)\n',
 ]
 
 EVERYDAY = [p.lstrip("\n") for p in PROGS + PROGS2 + PROGS3 + PROGS4]
